@@ -45,6 +45,22 @@ public:
 
   ParameterList& operator=(const ParameterList& pl);
 
+  /**
+   * @brief Move constructor
+   *
+   * The parameter objects change hands, they are not cloned. A list returned by value
+   * (shareSubList in particular) therefore holds the very same objects whether or not the
+   * compiler elides the copy of the returned object.
+   */
+  ParameterList(ParameterList&& pl) noexcept : parameters_(std::move(pl.parameters_)) {}
+
+  ParameterList& operator=(ParameterList&& pl) noexcept
+  {
+    if (this != &pl)
+      parameters_ = std::move(pl.parameters_);
+    return *this;
+  }
+
   ParameterList* clone() const { return new ParameterList(*this); }
 
   virtual ~ParameterList();
